@@ -231,6 +231,7 @@ td_us = z3.Function("td_us", R, I)               # timedelta(seconds=x) in micro
 jv_is_str = z3.Function("jv_is_str", JVSort, B)
 jv_str = z3.Function("jv_str", JVSort, S)
 jv_of_str = z3.Function("jv_of_str", S, JVSort)
+jv_null = z3.Const("jv_null", JVSort)                      # Python's None as a JSON value
 jv_is_list = z3.Function("jv_is_list", JVSort, B)
 jv_is_dict = z3.Function("jv_is_dict", JVSort, B)
 jv_tuple_of = z3.Function("jv_tuple_of", JVSort, JVSort)
